@@ -40,14 +40,15 @@ def strategy(tier):
     ] + history.extra_ops()
     return st.fixed_dictionaries(dict(
         setup=st.integers(0, 63),
-        ops=st.lists(st.one_of(*ops), min_size=4, max_size=nops),
+        tick0=st.sampled_from([False, False, True]),   # first pool process starts at tick 0
+        ops=history.with_motifs(ops, 4, nops),
     ))
 
 
 def run_case(case):
     import psutil
 
-    w = history.World()
+    w = history.World(first_tick=-1 if case.get("tick0") else 100)
     k = w.k
     labels = set()
     sig = []
@@ -132,8 +133,10 @@ def run_case(case):
                     except psutil.Error:
                         pass
             elif kind == "is_running":
-                o = w.pick_obj(op[1])
-                if o is not None:
+                # indices 10, 11 ask every object in turn
+                for o in (list(w.objs) if op[1] >= 10 else [w.pick_obj(op[1])]):
+                    if o is None:
+                        continue
                     try:
                         r = o.proc.is_running()
                     except Exception as e:  # noqa: BLE001
@@ -178,7 +181,7 @@ def run_case(case):
             check_all(op)
         w.close_blocks()
     for e in w.events:
-        if e[0] in ("oneshot-enter", "wait-returned"):
+        if e[0] in ("oneshot-enter", "wait-returned", "kept-from-process_iter", "became"):
             labels.add("history-with-" + e[0])
 
     pids = [o.pid for o in w.objs]
